@@ -269,6 +269,8 @@ def rule_H4(ctx: Ctx) -> None:
 RULES = [
     Rule("C18.H1", rule_H1, floor=6, doc="identity fields serialised (whole option dicts) and hashed"),
     Rule("C18.H2", rule_H2, floor=5, doc="loaders"),
+    Rule("C18.H6", lambda ctx: (__import__("sa.rules.c08", fromlist=["x"]).rule_G3(ctx), __import__("sa.rules.c08", fromlist=["x"]).rule_G4(ctx)), floor=6,
+         doc="'the same recorded filters' after a reload rests on what the filters record: every record has name / args (tuple) / kwargs, the keys the loader reads (C08.G3 / G4 re-judged)"),
     Rule("C18.H5", lambda ctx: __import__("sa.rules.c01", fromlist=["x"]).rule_B6(ctx), floor=16,
          doc="'the same generator function' rests on the registry: keys are the generators' own names, and no decorator renames a generator (C01.B6 re-judged)"),
     Rule("C18.H3", rule_H3, floor=1, doc="file-name components"),
